@@ -39,7 +39,7 @@ ASSUMPTIONS = [
   "MuJoCo's own optimum under the probe (a gap is quadratic in the perturbation)",
   "rows with an identically zero Jacobian are left out of the cost (constants up to 1e17 with D=1/mjMINVAL); worlds with a "
   "LIVE row at D>=1e12 (invweight0==0: Hessian condition >=1e15, not representable in float32) are tallied, not judged",
-  "worlds whose Hessian M + J^T D J (at qacc_smooth) has condition number > 1e8 are tallied, not judged",
+  "worlds whose Hessian M + J^T D J (at qacc_smooth) has condition number > 5e6 (about 1/eps32) are tallied, not judged",
   "float32 floor: Jaref/Ma are accumulated from the start point of the solve, so the round-off terms use max(|qacc|, "
   "|warmstart|, |qacc_smooth|) (a hostile warmstart of 1e4 leaves 1e4*eps32 in jar for the whole solve)",
 ]
@@ -51,7 +51,7 @@ C_GRADNOISE = 8.0  # float32 gradient-evaluation floor multiplier (enters the ga
 GATE_POS = 2e-5  # contact position / distance agreement required for the MuJoCo certificate
 GATE_FRAME = 2e-5
 ROW_REL = 2e-5  # float32-level row differences tolerated by the MuJoCo certificate (C05 judges the rows themselves)
-COND_MAX = 1e8  # worlds whose Hessian condition number exceeds this are not judged (float32 cannot factorise them)
+COND_MAX = 5e6  # worlds whose Hessian condition number exceeds this (~1/eps32) are tallied, not judged
 SMOOTH_REL = 1e-4  # float32 evaluation allowance for qfrc_smooth / M qacc inside the MuJoCo certificate
 
 BASE = dict(
@@ -401,9 +401,9 @@ def run_case(case):
       if not (cond < COND_MAX):
         # the Newton Hessian M + J^T D J (at qacc_smooth) has a condition number beyond what float32 can factorise
         # (eps32^-1 ~ 1e7): stalls / NaNs there are precision limits of the representation, tallied but not judged
-        rec.count("worlds_not_judged:hessian_condition>1e8")
+        rec.count("worlds_not_judged:hessian_condition>5e6")
         continue
-      rec.worst("info:log10_hessian_condition/8", np.log10(max(cond, 1.0)) / 8)
+      rec.worst("info:log10_hessian_condition/6.7", np.log10(max(cond, 1.0)) / 6.7)
       start = prev_qacc[w] if p else (None if warm_disabled else states[w]["qacc_warmstart"])
       nv0 = len(rec.violations)
       res = certificate_i(rec, P, int(ovf[w]), int(niter[w]), solver, tag, ctx, start=start)
